@@ -6,6 +6,7 @@ Conformance: MC_C08_shapes.tla enumerates "every element name x attribute x valu
 the harness runs one selector per pseudo-class / attribute operator (taken from the parser's own tables
 at check time) through every entry point on every element; oracle = outcome class.  The order in which
 the real matcher runs its checks is recorded with sys.setprofile and validated against MatchOrder."""
+import signal
 import sys
 from harness import common, replay, dom, tlc
 
@@ -18,7 +19,8 @@ def _selectors(sv):
     sels += [':not(:in-range)', ':is(:checked, :default)', ':has(> :indeterminate)', ':where(:disabled)', ':matches(a)',
              ':-soup-contains("x")', ':-soup-contains-own("x", "y")', ':contains(x)', ':current(p)', ':host(p)', ':host-context(p)',
              ':dir(ltr)', ':dir(rtl)', ':lang(en)', ':lang("*-x", "")', ':nth-child(2n+1)', ':nth-last-child(-n+2 of p)',
-             ':nth-of-type(2)', ':nth-last-of-type(odd)', ':root:in-range', 'input:out-of-range:not([type])']
+             ':nth-of-type(2)', ':nth-last-of-type(odd)', ':root:in-range', 'input:out-of-range:not([type])',
+             ':nth-child(0n+9)', ':nth-last-of-type(0n+40)', ':nth-child(0n+7 of *)', ':nth-last-child(-0n+3)', ':nth-child(99999n-99998)', ':nth-of-type(-5n+1)']
     for op in ('', '=', '~=', '|=', '^=', '$=', '*=', '!='):
         for an in ('t', 'class', 'id', 'type'):
             sels.append('[%s%s%s]' % (an, op, '"x"' if op else ''))
@@ -28,7 +30,16 @@ def _selectors(sv):
     return sels
 
 
+class _Timeout(BaseException):
+    pass
+
+
+def _alarm(signum, frame):
+    raise _Timeout()
+
+
 def _init(H):
+    signal.signal(signal.SIGALRM, _alarm)
     sv = H['sv']
     H['sels'] = []
     for css in _selectors(sv):
@@ -63,6 +74,8 @@ def _work(H, chunk):
         if len(brief) > 300:
             brief = brief[:140] + '...(%d chars)...' % len(brief) + brief[-100:]
         for css, obj in H['sels']:
+            if css in H.setdefault('hung', set()):
+                continue            # already reported as not terminating: do not wait for it on every document
             calls = [('select', lambda: obj.select(container)), ('select_one', lambda: obj.select_one(container)),
                      ('iselect', lambda: list(obj.iselect(container, 1)))]
             for e in els:
@@ -72,7 +85,16 @@ def _work(H, chunk):
             for name, fn in calls:
                 ncalls += 1
                 try:
-                    fn()
+                    signal.alarm(10)          # "terminate and return a value": a call that runs this long on a 5-node tree never will
+                    try:
+                        fn()
+                    finally:
+                        signal.alarm(0)
+                except _Timeout:
+                    viols.append(('%s|%s|%s' % (css, name, brief), '%s(%r) did not terminate within 10 s on %s' % (name, css, brief),
+                                  {'selector': css, 'doc': d, 'call': name, 'exc': 'no termination'}))
+                    H['hung'].add(css)
+                    break
                 except Exception as ex:
                     viols.append(('%s|%s|%s' % (css, name, brief), '%s(%r) raised %s: %s on %s' % (name, css, type(ex).__name__, str(ex)[:80], brief),
                                   {'selector': css, 'doc': d, 'call': name, 'exc': type(ex).__name__}))
